@@ -210,8 +210,10 @@ def family_settings(family, rng, normalize=True):
 # ---------------------------------------------------------------------------------------------
 # synthetic models
 
-def rand_feature_list(settings, rng, nmax=None):
-    """Random FeatureList reading raw (normalised) features 1..nfeat-1 (index 0 is the density)."""
+def rand_feature_list(settings, rng, nmax=None, mixed=False):
+    """Random FeatureList reading raw (normalised) features 1..nfeat-1 (index 0 is the density).  mixed=True appends maps of
+    other classes that read raw features ALREADY read by an earlier map (identity LMap, three-argument WMap): all maps of a
+    list accumulate into one raw-derivative buffer."""
     from ciderpress.dft import transform_data as td
     nf = settings.nfeat
     nsl = settings.sl_settings.nfeat
@@ -225,6 +227,16 @@ def rand_feature_list(settings, rng, nmax=None):
             maps.append(td.UMap(i, g))
         else:
             maps.append(td.SignedUMap(i, g))
+    if mixed and idxs:
+        sl = [i for i in idxs if i < nsl]
+        nl = [i for i in idxs if i >= nsl]
+        if sl:
+            maps.append(td.LMap(int(rng.choice(sl)), bounds=(0.0, 10.0)))
+        if nl and len(sl) >= 2:
+            a, b = [int(v) for v in rng.choice(sl, size=2, replace=False)]
+            maps.append(td.WMap(a, b, int(rng.choice(nl)), float(rng.uniform(0.2, 2.0)), float(rng.uniform(0.2, 2.0))))
+        if nl:
+            maps.append(td.LMap(int(rng.choice(nl)), bounds=(-10.0, 10.0)))
     return td.FeatureList(maps)
 
 
@@ -350,6 +362,14 @@ def build_model(cfg, rng):
         ev = "spinrbf"  # only the spin evaluator accepts the (2, n, N1) descriptor layout of POL mode
     if isinstance(ev, str) and "+" in ev:
         ev = ev.split("+")
+    if cfg.get("model") == "xc2m":
+        # several libxc-backed kernels of different spin modes and baselines in one model (they share the potential tuple):
+        # correlation-like NPOL kernel FIRST, spin-separable exchange kernel after it (or the order given in cfg["order"])
+        from ciderpress.dft import xc_evaluator2 as xe2
+        parts = {"c": synth_model2(st, rng, mode="NPOL", evaluator=ev, mul_base="GGA_C_PBE", add_base="GGA_C_PBE").kernels[0],
+                 "x": synth_model2(st, rng, mode="SEP", evaluator=ev, mul_base=cfg.get("mul_base", "GGA_X_PBE")).kernels[0],
+                 "x2": synth_model2(st, rng, mode="SEP", evaluator=ev, mul_base="LDA_X").kernels[0]}
+        return xe2.MappedXC2([parts[k] for k in cfg.get("order", ["c", "x"])], st)
     if cfg.get("model", "xc1") == "xc2":
         return synth_model2(st, rng, mode=cfg.get("mode", "SEP"), evaluator=ev, mul_base=cfg.get("mul_base", "GGA_X_PBE"),
                             add_base=cfg.get("add_base"), nkernels=cfg.get("nkernels", 1))
